@@ -189,7 +189,20 @@ fn iovec_op(c: &mut Cursor) -> Op {
             len: size(c).min(9000),
             keep: c.u16() % 40,
         },
-        21 => Op::Hold { slot, off: c.u32(), len: size(c).min(9000) },
+        21 => match c.u8() % 4 {
+            0 => Op::AnchoredWindows {
+                slot,
+                off: c.u32(),
+                len: 16 + c.u16() as u32 % 3000,
+                windows: (0..1 + c.u8() % 3).map(|_| (c.u8(), c.u8())).collect(),
+            },
+            1 => Op::ExtendPanicking {
+                slot,
+                parts: (0..c.u8() % 4).map(|_| (c.u32(), c.u16() % 300)).collect(),
+                after: c.u8() % 4,
+            },
+            _ => Op::Hold { slot, off: c.u32(), len: size(c).min(9000) },
+        },
         22 => match c.u8() % 7 {
             0 => Op::HeldSplit { idx: slot, mid: c.u16() % 300 },
             1 => Op::HeldSkip { idx: slot, k: c.u16() % 20 },
